@@ -306,6 +306,22 @@ def run_property(prop, tier, seed, replay=None, jobs=None, only=None):
             harness_error = True
             lines.append("HARNESS-ERROR %s: vacuous exploration (one distinct outcome from %d executions)" % (
                 sub.name, p["size"]))
+    if os.environ.get("VERIF_SUMMARY"):
+        import collections
+        import re
+        grp = collections.Counter()
+        ex = {}
+        for sub in subs:
+            for d in per[sub.name]["discs"]:
+                if match_finding(findings, matchers, d) is not None:
+                    continue
+                t = d["tags"]
+                key = (sub.name, t.get("kind"), t.get("cmd"), t.get("prev_kind"),
+                       re.sub(r"[-+]?[0-9]*\.?[0-9]+(?:[eE][-+]?[0-9]+)?", "#", str((t.get("problems") or [d["message"]])[0]))[:150])
+                grp[key] += 1
+                ex.setdefault(key, d["case"])
+        for k, v in sorted(grp.items(), key=lambda kv: -kv[1]):
+            print("SUMMARY %6d %s  e.g. %s" % (v, k, _short(ex[k], 160)))
     for rec in findings:
         if rec["id"] in known_hit:
             print("KNOWN-FINDING: property=%s %s [%s; %d matching cases]" % (
